@@ -1,4 +1,5 @@
 """C07 — the snapshot variable table is closed and de-duplicated by object identity."""
+import json
 import core
 from props import collector_common as cc
 
@@ -43,10 +44,13 @@ def gen(rng, tier):
             yield cc.gen_case(rng, mock_frames=rng.randint(2, 3), frame_type='all_frame')
         elif r < 0.91:
             yield cc.gen_case(rng, nactions=2)
-        elif r < 0.92:
+        elif r < 0.917:
+            # a log message that cannot be formatted over a value not in the frame, then a deferred capture of that value
+            yield cc.gen_log_format(rng)
+        elif r < 0.922:
             # a watch whose collection aborts part-way, then watches reaching what it had numbered (recorded finding)
             yield cc.gen_aborted(rng)
-        elif r < 0.93:
+        elif r < 0.932:
             # a local of one frame is the f_locals dict of another frame of the chain (recorded finding D31, multi-frame shape)
             yield cc.gen_frame_locals(rng)
         elif r < 0.95:
@@ -127,6 +131,9 @@ def known_replays():
          {'objs': [{'t': 'int', 'v': 1}, {'t': 'str', 'v': 'shared value'}, {'t': 'aborting', 'k': 'meta_name'}],
           'locals': [['x', 0]], 'globals': [['SH', 1], ['BAD', 2]], 'frame_type': 'single_frame', 'stream': 'aborted-watch',
           'actions': [{'limits': {}, 'watches': ['[SH, BAD]', 'SH']}]}),
+        (cc.K_LOGFMT, 'a snapshot tracepoint whose log message has a numeric format spec over a text-interpolated value: '
+                      'process_log raises ValueError out of the snapshot action and the due snapshot is not pushed',
+         json.loads('{"objs": [{"t": "tuple", "e": []}, {"t": "int", "v": 0}, {"t": "int", "v": 1}, {"t": "str", "v": "0.25"}, {"t": "dict", "k": [[{"s": "eur"}, 3], [{"s": "usd"}, 0]]}], "locals": [["d", 2]], "frame_type": "single_frame", "stream": "log-format", "actions": [{"limits": {"vars": null, "str": null, "coll": null, "depth": null}, "log": "d={d} rate={RATES:.4f}"}], "capture": "return", "capture_expr": "[RATES, 1000]", "globals": [["RATES", 4]], "stage": "line_capture"}')),
         (D31, 'watch `locals()`: the watch result points at the deleted locals pseudo-entry',
          {'objs': [{'t': 'int', 'v': 1}], 'locals': [['x', 0]], 'frame_type': 'single_frame', 'stream': 'd31',
           'actions': [{'limits': {}, 'watches': ['locals()']}]}),
@@ -207,6 +214,19 @@ def oracle(case, obs):
 
 
 def known_finding(case, obs):
+    if cc.log_format_fails(case):
+        # the unchanged code loses the whole snapshot when its log message cannot be formatted (candidate finding, C16 / C06
+        # territory): the ONLY objection that counts as that finding is the missing snapshot.  A snapshot that IS delivered
+        # on such a case is judged like any other (a dangling capture reference is a violation of C07).
+        live = cc.live_of(obs)
+        if live is not None and 'raised' not in obs and not obs.get('snapshots') and \
+                all(x.endswith('although it is due') for x in oracle(case, obs)):
+            return cc.K_LOGFMT
+        return None
+    return known_finding_d31(case, obs)
+
+
+def known_finding_d31(case, obs):
     """an instance of D31 = the case binds a frame's locals dict to a name / watch AND everything the identity oracle objects to
     is of the one shape the model allows (`C07.c07_dangling_only_locals`): a reference without entry that was made for the
     locals dict of a collected frame.  Anything else on such a case is a violation."""
@@ -230,7 +250,12 @@ def known_finding(case, obs):
     return D31
 
 
-model_request = cc.model_request
+def model_request(case, obs):
+    if cc.log_format_fails(case):
+        return None      # the failure of string formatting is not in the collector model (C16): oracle only
+    return cc.model_request(case, obs)
+
+
 compare = cc.compare
 shrink = cc.shrink_case
 
